@@ -184,8 +184,8 @@ def _run_1d(case, R, prebuilt=None):
         R.violation(f"{ctor}-cells-do-not-tile", f"{label}/{ctor}: recomputed cells do not tile the truncated support", {"grid": g})
     lam_oracle = float(rates.sum())
     lam_err = float(errs.sum())
-    if lam_oracle < 1e-9:
-        R.skip("chain intensity below 1e-9: cell masses under the resolution of the closed forms")
+    if lam_oracle < W.resolution_floor(mspec):
+        R.skip("chain intensity below 1e-9 (or a millionth of the model's intensity): cell masses under the resolution of the closed forms")
         return
     positive = int(np.sum(rates > 1e-12 * lam_oracle))
     # closed-form masses of a finite-activity measure are differences of distribution functions: their absolute rounding is on the
@@ -374,8 +374,8 @@ def _run_nd(case, R, prebuilt=None):
         b = [float(bounds[k][1][s[k]]) for k in range(d)]
         want[s] = oracle.mass(a, b)
     lam_oracle = sum(want.values())
-    if lam_oracle < 1e-9:
-        R.skip("chain intensity below 1e-9: cell masses under the resolution of the closed forms")
+    if lam_oracle < W.resolution_floor(cm):
+        R.skip("chain intensity below 1e-9 (or a millionth of the model's intensity): cell masses under the resolution of the closed forms")
         return
     # marginal row sums by quadrature (truncated margins): exact in the truncated model
     for method in case["methods"]:
